@@ -12,7 +12,7 @@ import (
 func init() {
 	Register(&Spec{
 		ID:          "C17",
-		Explanation: "Decides necessary conditions of Equal being the documented structural equality: (R1) a byte extent of a list computed as element size * length is used only where the list is known not to be a bit list (bit lists have element size zero and need bitListSize or bitwise comparison); (R2) coverage of the cases: structs compare the common data prefix and require the longer tail to be zero on either side, compare the common pointers recursively and require the extra pointers of either side to be null; lists require equal lengths, compare bit lists bit by bit under both bit-list flags, use the bytewise fast path only for non-bit, pointer-free lists of equal element size, and otherwise compare elements as structs; interfaces end in Client.IsSame; (R3) the error of every recursive call is propagated. Does NOT decide iff-correctness, reflexivity or symmetry as value-level facts.",
+		Explanation: "Decides necessary conditions of Equal being the documented structural equality: (R1) a byte extent of a list computed as element size * length is used only where the list is known not to be a bit list (bit lists have element size zero and need bitListSize or bitwise comparison); (R2) coverage of the cases: structs compare the common data prefix and require the longer tail to be zero on either side, compare the common pointers recursively and require the extra pointers of either side to be null; lists require equal lengths, compare bit lists bit by bit under both bit-list flags, use the bytewise fast path only for non-bit, pointer-free lists of equal element size, and otherwise compare elements as structs; interfaces end in Client.IsSame; (R3) the error of every recursive call is propagated. (R2z) isZeroFilled answers true only after a byte-granular scan of the whole slice; (R2i) a result of Equal depends on two capability indexes being equal only where the two pointers are known to be in the same message. Does NOT decide iff-correctness, reflexivity or symmetry as value-level facts.",
 		Run:         runC17,
 	})
 }
